@@ -4,6 +4,7 @@ from hypothesis import strategies as st
 
 import pygaps
 from pygaps.core.baseisotherm import BaseIsotherm
+from pygaps.utilities.exceptions import pgError
 
 from pbt import case as K
 from pbt import ref_units as ru
@@ -304,7 +305,33 @@ def _read_check(iso, model, k, where):
     return True
 
 
+def _prelude_other_namesake(d):
+    """Earlier in the same process, ANOTHER user-made gas was registered under the same name (other vapour pressure and
+    densities), an isotherm on it converted through every pressure mode, and the registration removed again. Nothing
+    of that may show in the conversions of the isotherm under test."""
+    import copy
+    d0 = copy.deepcopy(d)
+    uf = d0["user_fluid"]
+    d0["user_fluid"] = [uf[0] * 2.5, uf[1] * 0.5, uf[2] * 1.7, uf[3] * 0.6]
+    K.reset_registries()
+    other = K.build_point(d0)
+    for unit in ("bar", "Pa", "kPa", "torr"):
+        for mode, u in (("relative", None), ("absolute", unit), ("relative%", None), ("absolute", unit)):
+            try:
+                other.convert_pressure(mode_to=mode, unit_to=u)
+            except pgError:
+                return
+    for basis, u in (("volume_liquid", "cm3"), ("volume_gas", "cm3"), ("mass", "g"), ("molar", "mmol")):
+        try:
+            other.convert_loading(basis_to=basis, unit_to=u)
+        except pgError:
+            return
+
+
 def check_history(desc, ctx):
+    if desc["iso"].get("user_fluid"):
+        _prelude_other_namesake(desc["iso"])
+        ctx.label("prelude_other_namesake")
     K.reset_registries()
     iso = K.build_point(desc["iso"])
     model = Model(desc["iso"], iso)
